@@ -305,6 +305,7 @@ func (ex *Exec) checkFrame(st *State, n ast.Node, ord int, con *Contract) {
 	// one obligation per struct type (its field heaps together), so that a function touching the
 	// ninety fields of StyleAttributes does not produce ninety obligations per return
 	groups := map[string][]*Term{}
+	firstDesc := map[string]string{}
 	var gk []string
 	for _, h := range names {
 		cur := st.heap[h]
@@ -333,11 +334,12 @@ func (ex *Exec) checkFrame(st *State, n ast.Node, ord int, con *Contract) {
 		}
 		if _, ok := groups[g]; !ok {
 			gk = append(gk, g)
+			firstDesc[g] = describeHeapName(h)
 		}
 		groups[g] = append(groups[g], goal)
 	}
 	for _, g := range gk {
-		name := g
+		name := firstDesc[g] // a single heap is reported under its own name
 		if len(groups[g]) > 1 {
 			name = g + ".*"
 		}
@@ -562,6 +564,7 @@ func (ex *Exec) globalKnowledge(o *types.Var, v Val) []*Term {
 		out = append(out, ex.arrayConstFacts(o, v)...)
 		if _, isMap := o.Type().Underlying().(*types.Map); isMap {
 			out = append(out, ex.tableLeafFacts(o)...)
+			out = append(out, ex.bimapTableFacts(o)...)
 		}
 	}
 	// error sentinels are non-nil and pairwise distinct by identity
